@@ -47,8 +47,9 @@ def write_evidence(mod, acc, tier, seed, wall, n_unknown, n_known, extra):
         "wall_s": round(wall, 2),
         "violations": n_unknown,
     }
-    os.makedirs(os.path.join(core.VERIF, "evidence"), exist_ok=True)
-    path = os.path.join(core.VERIF, "evidence", mod.ID + ".json")
+    evdir = os.environ.get("VERIF_EVIDENCE_DIR") or os.path.join(core.VERIF, "evidence")
+    os.makedirs(evdir, exist_ok=True)
+    path = os.path.join(evdir, mod.ID + ".json")
     with open(path, "w") as f:
         f.write(core.jdump(ev))
         f.write("\n")
@@ -56,7 +57,7 @@ def write_evidence(mod, acc, tier, seed, wall, n_unknown, n_known, extra):
 
 
 def write_replay(mod, key, ex, tier):
-    d = os.path.join(core.VERIF, "replays", mod.ID)
+    d = os.path.join(os.environ.get("VERIF_REPLAY_DIR") or os.path.join(core.VERIF, "replays"), mod.ID)
     os.makedirs(d, exist_ok=True)
     rec = {"property": mod.ID, "key": key, "tier": tier}
     rec.update(ex)
